@@ -334,6 +334,25 @@ func c02WriterOrder(r *run) {
 		if round >= 6 {
 			l.SetColorMode(false)
 		}
+		if round%3 == 1 {
+			// a setter given nil refuses: the configured destinations stay as they are
+			var none io.Writer
+			l.SetErrorWriter(none)
+			l.SetWriter(none)
+			l.AddWriter(none)
+			l.AddErrorWriter(none)
+			how += "; SetErrorWriter(nil); SetWriter(nil); AddWriter(nil); AddErrorWriter(nil)"
+		}
+		if round%4 == 2 {
+			// a destination that fails sits in front of the healthy ones in both class lists: they are served all the same
+			// (the warning the library writes about the failure goes to the error writers as a record of its own)
+			cur, curE := l.GetWriterBy(slog.InfoLevel), l.GetWriterBy(slog.ErrorLevel)
+			l.SetWriter(c01Broken{})
+			l.AddWriter(cur)
+			l.SetErrorWriter(c01Broken{})
+			l.AddErrorWriter(curE)
+			how += "; a failing destination put in front of each class list"
+		}
 		for _, sev := range []slog.Level{slog.InfoLevel, slog.ErrorLevel, slog.WarnLevel, slog.DebugLevel, slog.TraceLevel} {
 			for _, d := range []*dest{n, e, lw, n2} {
 				d.rec.take()
@@ -353,7 +372,12 @@ func c02WriterOrder(r *run) {
 			}
 			r.seen(fmt.Sprintf("writer-order|%d|%d", round%6, int(sev)))
 			for _, d := range []*dest{n, e, lw, n2} {
-				w := d.rec.take()
+				var w [][]byte
+				for _, p := range d.rec.take() {
+					if !bytes.Contains(p, []byte("slog print log failed")) { // the library's own warning about a failing destination
+						w = append(w, p)
+					}
+				}
 				exp := 0
 				if want[d] {
 					exp = 1
